@@ -862,9 +862,13 @@ _SUBTAGS = ["Language.fromBytes", "Script.fromBytes", "Region.fromBytes", "Varia
 _EXT = ["parseKey", "parseType", "parseAttribute", "isType", "isAttribute", "parseTKey", "parseTValue", "isLanguageSubtag", "parsePrivate",
         "ExtType.fromByte"]
 _MATCH = ["Language.isMatch", "LangId.subtagMatches", "LangId.isOptionEmpty", "LangId.subtagsMatch", "LangId.isMatch"]
-SRC_TIE = {"C01": _SUBTAGS + _EXT, "C02": _SUBTAGS, "C03": _SUBTAGS + _EXT, "C04": _SUBTAGS + _EXT, "C05": _SUBTAGS + _EXT,
-           "C09": _SUBTAGS + _EXT, "C10": _SUBTAGS + _EXT, "C11": _MATCH, "C12": ["Language.asStr"], "C13": _SUBTAGS, "C15": _SUBTAGS,
-           "C17": _SUBTAGS}
+# the parsers: loops, mutation, the subtag iterator (srclean's imperative subset; theorems in SrcTie/*Parse*.lean)
+_PARSE_LI = ["LangId.parseIter", "LangId.parse", "LangId.tryFromIter", "LangId.fromBytes"]
+_PARSE_LOC = ["UExt.parseIter", "TExt.parseIter", "PExt.parseIter", "ExtMap.parseIter", "ExtMap.fromBytes", "Locale.parse", "Locale.fromBytes"]
+SRC_TIE = {"C01": _SUBTAGS + _EXT + _PARSE_LI + _PARSE_LOC, "C02": _SUBTAGS + _PARSE_LI, "C03": _SUBTAGS + _EXT + _PARSE_LI + _PARSE_LOC,
+           "C04": _SUBTAGS + _EXT + _PARSE_LI + _PARSE_LOC, "C05": _SUBTAGS + _EXT + _PARSE_LI + _PARSE_LOC,
+           "C09": _SUBTAGS + _EXT + _PARSE_LI + _PARSE_LOC, "C10": _SUBTAGS + _EXT, "C11": _MATCH, "C12": ["Language.asStr"],
+           "C13": _SUBTAGS + _PARSE_LI + _PARSE_LOC, "C15": _SUBTAGS, "C17": _SUBTAGS + _PARSE_LI}
 
 
 PARSE_STREAMS = [("tokens", None), ("wf", None), ("near", None), ("raw", None)]
